@@ -2599,19 +2599,20 @@ class GreedyRange(Subconstruct):
     def _parse(self, stream, context, path):
         discard = self.discard
         obj = ListContainer()
-        try:
-            for i in itertools.count():
-                context._index = i
-                fallback = stream_tell(stream, path)
+        for i in itertools.count():
+            context._index = i
+            fallback = stream_tell(stream, path)
+            try:
                 e = self.subcon._parsereport(stream, context, path)
-                if not discard:
-                    obj.append(e)
-        except StopFieldError:
-            pass
-        except ExplicitError:
-            raise
-        except Exception:
-            stream_seek(stream, fallback, 0, path)
+            except StopFieldError:
+                break
+            except ExplicitError:
+                raise
+            except Exception:
+                stream_seek(stream, fallback, 0, path)
+                break
+            if not discard:
+                obj.append(e)
         return obj
 
     def _build(self, obj, stream, context, path):
